@@ -67,6 +67,7 @@ OPAQUE_EA = {"debug": NoneT, "info": NoneT, "warning": NoneT, "store_metadata": 
 def _(self, state, action, extra_parameters=None, cache=None):
     requires(not isnone(self.raw_query), "called-from-evaluate:the-context-knows-its-query")
     requires(state_wf(state.metadata), "a-state-made-by-State():standard-keys-present")
+    requires(self.vars.src == rec_get(state.metadata, "vars"), "C04:the-context-carries-the-variables-of-the-input-state(not-defaults,not-another-context's)")
     g = module("liquer.cache")._cache
     c = ite(isnone(cache), g, unopt(cache))
     extras = not isnone(extra_parameters) and len(unopt(extra_parameters)) > 0
@@ -117,6 +118,11 @@ prop("C18", fucs=["liquer.context.Context.evaluate_action"])
 prop("C04", static=[
     ("owned", "liquer.cache.MemoryCache.store", "the-cache-keeps-its-own-copy", "item:storage"),
     ("owned", "liquer.cache.MemoryCache.get", "the-cache-hands-out-a-copy", "return"),
+    ("owned", "liquer.state.State.clone", "a-clone-does-not-share-its-data", "attr:data"),
+    ("owned", "liquer.state_types.copy_state_data", "copies-go-through-the-state-type-of-the-value", "return"),
+    ("owned", "liquer.state_types.DictStateType.copy", "dictionary-values-are-copied-in-depth", "return"),
+    ("owned", "liquer.state_types.JsonStateType.copy", "generic-values-are-copied-in-depth", "return"),
+    ("owned", "liquer.state_types.PickleStateType.copy", "pickled-values-are-copied-in-depth", "return"),
 ])
 
 # C05: what the cache holds for a key stays the value of that key only if the in-memory cache keeps and hands out its own copies
